@@ -596,6 +596,48 @@ func runC14R3(c *Ctx, r *Rep) {
 									widths[string(rune(mustInt(lv.Value)))] = tv.Value.ExactString()
 								}
 							}
+						} else if wid := identOf(call.Args[2]); wid != nil {
+							// one clause for several letters, the width held in a local: `w := 4; if c == 'U' { w = 8 }`
+							wobj := pr.TypesInfo.Uses[wid]
+							dflt := ""
+							per := map[string]string{}
+							for _, bs := range x.Body {
+								switch y := bs.(type) {
+								case *ast.AssignStmt:
+									if len(y.Lhs) == 1 && len(y.Rhs) == 1 {
+										if lid := identOf(y.Lhs[0]); lid != nil && (pr.TypesInfo.Defs[lid] == wobj || pr.TypesInfo.Uses[lid] == wobj) {
+											if v, ok := pr.TypesInfo.Types[y.Rhs[0]]; ok && v.Value != nil {
+												dflt = v.Value.ExactString()
+											}
+										}
+									}
+								case *ast.IfStmt:
+									be, ok := unparen(y.Cond).(*ast.BinaryExpr)
+									if !ok || be.Op != token.EQL || len(y.Body.List) != 1 {
+										continue
+									}
+									lv, ok := pr.TypesInfo.Types[be.Y]
+									as, ok2 := y.Body.List[0].(*ast.AssignStmt)
+									if !ok || lv.Value == nil || !ok2 || len(as.Lhs) != 1 || len(as.Rhs) != 1 {
+										continue
+									}
+									if lid := identOf(as.Lhs[0]); lid != nil && pr.TypesInfo.Uses[lid] == wobj {
+										if v, ok := pr.TypesInfo.Types[as.Rhs[0]]; ok && v.Value != nil {
+											per[string(rune(mustInt(lv.Value)))] = v.Value.ExactString()
+										}
+									}
+								}
+							}
+							for _, e := range x.List {
+								if lv, ok := pr.TypesInfo.Types[e]; ok && lv.Value != nil {
+									l := string(rune(mustInt(lv.Value)))
+									if w, ok := per[l]; ok {
+										widths[l] = w
+									} else if dflt != "" {
+										widths[l] = dflt
+									}
+								}
+							}
 						}
 					}
 					return true
